@@ -6,8 +6,8 @@ name = os.path.basename(d.rstrip("/"))
 notes = open(os.path.join(d, "notes.txt"), errors="replace").read()
 lines = notes.split("\n")
 summary = lines[0].strip()
-m = re.search(r"(?is)(what it needs[^\n]*\n)(.*?)(\n\s*\n[A-Z][^\n]*:|\nDemonstration|\nDemo)", notes)
-needs = m.group(2).strip() if m else ""
+m = re.search(r"(?is)\n((?:what it )?needs to manifest[^\n]*\n.*?)(\n[ \t]*\n|\nDemonstration|\nDemo)", "\n" + notes)
+needs = m.group(1).strip() if m else ""
 res = [l.strip() for l in open(log) if l.startswith("RESULT") or l.startswith("CONFIRMED") or l.startswith("NOT-CONFIRMED")]
 meta = {"property": name.split("_")[0], "origin": origin, "summary": summary, "needs_to_manifest": needs[:1500],
         "what_i_ran": "tools/confirm_mutant.sh: " + " ".join(res), "confirmed": any(l == "CONFIRMED" for l in res)}
